@@ -86,6 +86,29 @@ def main(argv: Optional[List[str]] = None) -> int:
         ctx = Ctx(a.root)
         rule_errors: List[AnalysisError] = []
         obs = evaluate(prop, ctx, errors=rule_errors)
+        if a.explain:
+            # replay: re-derive the recorded violations on the current tree and print the witnesses
+            try:
+                with open(a.explain, encoding="utf-8") as fh:
+                    rec = json.load(fh).get("violations", [])
+            except (OSError, ValueError) as e:
+                print(f"ANALYSIS-ERROR cannot read replay file {a.explain}: {e}")
+                return 2
+            cur = {(o.rule, o.key): o for o in obs if not o.ok}
+            again = 0
+            for v in rec:
+                k = (v.get("rule"), v.get("construct"))
+                o = cur.get(k)
+                if o is not None:
+                    again += 1
+                    print(f"RE-DERIVED {o.rule} {o.loc} {o.key}\n    {o.msg}")
+                    if o.detail:
+                        print("    detail: " + json.dumps(o.detail)[:600])
+                else:
+                    print(f"NOT RE-DERIVED on the current tree: {k[0]} {k[1]}")
+            if again:
+                print(f"VIOLATION property={prop} replay={a.explain}")
+            return 1 if again else 0
         # zero-count rules: positive fixtures must fire on every run
         known = Known()
         viol, kn, stale = classify(prop, obs, known)
